@@ -303,8 +303,20 @@ pub fn execute(v: &Value) -> String {
     };
 
     let probe = |srv: &mut Srv, next_id: &mut i32, sent_ids: &mut Vec<i32>, baseline: &mut Option<String>| -> (Obs, bool) {
-        let o = run_reqs(srv, &[("workspace/symbol".to_string(), json!({"query": ""}))], next_id, sent_ids).pop().unwrap();
-        let answer = drv::responses_to(&srv.received, o.id).first().and_then(|r| r.result.as_ref()).map(canonical);
+        // two probes: the symbol listing (its observation is the one reported) and the code actions
+        // offered on the first line of note 2, a request that goes through the action providers and
+        // their shared tables; both answers must stay what they were
+        let mut os = run_reqs(srv, &[
+            ("workspace/symbol".to_string(), json!({"query": ""})),
+            ("textDocument/codeAction".to_string(), json!({"textDocument": {"uri": "file:///base/2.md"}, "range": {"start": {"line": 0, "character": 0}, "end": {"line": 0, "character": 0}}, "context": {"diagnostics": []}})),
+        ], next_id, sent_ids);
+        let o2 = os.pop().unwrap();
+        let o = os.pop().unwrap();
+        let actions = drv::responses_to(&srv.received, o2.id).first().map(|r| match (&r.result, &r.error) {
+            (Some(v), None) => canonical(v),
+            _ => "<error>".to_string(),
+        }).unwrap_or_else(|| "<none>".to_string());
+        let answer = drv::responses_to(&srv.received, o.id).first().and_then(|r| r.result.as_ref()).map(canonical).map(|a| format!("{}|{}", a, actions));
         let same = match (&*baseline, &answer) {
             (None, Some(a)) => { *baseline = Some(a.clone()); true }
             (Some(b), Some(a)) => a == b,
